@@ -592,6 +592,58 @@ func c14Large(c *mon.Ctx, r *rand.Rand) {
 		{"shared-backing-array", `"/2" == 3`, shared}, {"shared-backing-array", `"/0" == 1`, shared}, {"shared-backing-array", `"/1" == 2 or "/0" == 2`, shared},
 		{"one-pointer-under-several-keys", `"x" in Tags`, ptrs}, {"one-pointer-under-several-keys", `Tags is not empty`, ptrs},
 	}
+	// Evaluate on long lists whose elements are of many kinds (some of them
+	// erroring for the operator, one matching, in a fixed position each):
+	// the list is ordered, so is the outcome
+	if r.Intn(3) == 0 {
+		n := []int{127, 128, 129, 200, 256, 300, 1000}[r.Intn(7)]
+		l := make([]interface{}, n)
+		for i := range l {
+			switch i % 7 {
+			case 0:
+				l[i] = i
+			case 1:
+				l[i] = fmt.Sprintf("s%d", i)
+			case 2:
+				l[i] = float64(i) + 0.5
+			case 3:
+				l[i] = i%2 == 0
+			case 4:
+				l[i] = uint8(i)
+			case 5:
+				l[i] = int64(i)
+			default:
+				l[i] = nil
+			}
+		}
+		pos := r.Intn(n)
+		l[pos] = "needle"
+		epos := r.Intn(n)
+		if epos == pos {
+			epos = (pos + 1) % n
+		}
+		l[epos] = []interface{}{map[string]interface{}{"nested": 1}, []interface{}{1}, struct{ X int }{1}}[r.Intn(3)]
+		datum := map[string]interface{}{"l": l, "m": map[string]interface{}{"a": l, "b": l[:n/2], "c": l[n/3:]}}
+		text := []string{`needle in l`, `needle not in l`, `l contains "needle"`, `any m as _, v { needle in v }`, `all m as k, v { needle not in v }`, `999999 in l`, `"s1" in l or needle in l`}[r.Intn(7)]
+		counts := map[string]int{}
+		ev, err, pan, _ := createEval(text)
+		if pan == "" && err == nil {
+			for i := 0; i < 60; i++ {
+				use := ev
+				if i%5 == 4 {
+					use, _, _, _ = createEval(text)
+				}
+				counts[evaluate(use, datum).Class()]++
+				c.Evals(1)
+			}
+			if len(counts) > 1 {
+				c.Violation(fmt.Sprintf("C14 nondeterministic %v long-mixed-list", keysOf(counts)), "repeating the same call on a long list of many kinds gave different outcomes", map[string]any{"expression": text, "elements": n, "needle_at": pos, "erroring_element_at": epos, "outcome_counts": counts})
+			}
+		}
+		c.Count("large_or_aliased_map_scenarios")
+		c.Count("large_or_aliased:long-mixed-list")
+		return
+	}
 	sc := scens[r.Intn(len(scens))]
 	f, _ := bexpr.CreateFilter(sc.ftext)
 	if f == nil {
